@@ -96,3 +96,12 @@ pub fn new_moon(k: f64) -> f64 {
   }
   jde
 }
+
+/// Nutation in longitude in arcseconds, low-accuracy series of Meeus ch. 22 (four terms, good to about 0.5"), with the
+/// secular change of the main term's amplitude of the IAU 1980 theory; t = Julian centuries from J2000
+pub fn nutation_lon_arcsec(t: f64) -> f64 {
+  let om = rad(125.04452 - 1934.136261 * t + 0.0020708 * t * t);
+  let l = rad(280.4665 + 36000.7698 * t);
+  let lp = rad(218.3165 + 481267.8813 * t);
+  (-17.1996 - 0.01742 * t) * om.sin() - 1.3187 * (2.0 * l).sin() - 0.2274 * (2.0 * lp).sin() + 0.2062 * (2.0 * om).sin()
+}
